@@ -173,3 +173,31 @@ func (c *ServerConn) VerifGbnID() any {
 	}
 	return c.gbnConn.VerifID()
 }
+
+// VerifWhoKey is the context key under which a harness names the party that
+// owns a Client; the value is handed back with every vtraceClient event.
+type VerifWhoKey struct{}
+
+// VerifClientSrc is the source of a vtraceClient event: the connection and
+// whatever the harness stored under VerifWhoKey in the Client's context.
+type VerifClientSrc struct {
+	Who  any
+	Conn *ClientConn
+}
+
+// vtraceClient reports a status-related step of a ClientConn (the status
+// register written or kept by setStatus, and what asked for it: a receive
+// that succeeded or failed, a send that failed, the FIN callback) with the
+// status concerned: 0 not connected, 1 session not found, 2 session in use,
+// 3 connected.
+func vtraceClient(c *ClientConn, ev string, s ClientStatus) {
+	if f := verifSink.Load(); f != nil {
+		code := map[ClientStatus]int{
+			ClientStatusNotConnected:    0,
+			ClientStatusSessionNotFound: 1,
+			ClientStatusSessionInUse:    2,
+			ClientStatusConnected:       3,
+		}[s]
+		(*f)(VerifClientSrc{Who: c.ctx.Value(VerifWhoKey{}), Conn: c}, ev, code)
+	}
+}
